@@ -497,6 +497,13 @@ bool apply(int op, uint8_t a, uint8_t b, uint8_t c, int ntab, size_t K, size_t m
         TRACE("%s resize n=%zu f=%s%s", t.tag, n, FN[f], failed ? " [allocation failed]" : "");
         if (n == 0) { CNT("class.resize.zero"); break; }
         bool took_effect_anyway = false;
+        // (whether this request needs memory is judged by what happened -- a request was refused during the call -- not by the
+        // model's idea of the capacity: a table may keep less, or more, than the largest count it was ever asked for)
+        if (failed && !grows_cap) {
+            CNT("class.resize.refused_without_model_growth");
+            if (t.has_buckets && n == t.tgt_n) throw Abandon{"C16.(a request was refused during a resize that keeps the bucket count: outcome not observable)"};
+            grows_cap = true;
+        }
         if (grows_cap && failed && t.has_buckets && t.n > 0 && n != t.tgt_n && n <= g_alloc_limit / 16) {
             // a request was refused, yet the table may have found another way: the load tells (it is computed
             // against the requested bucket count as soon as a resize is accepted)
@@ -527,7 +534,7 @@ bool apply(int op, uint8_t a, uint8_t b, uint8_t c, int ntab, size_t K, size_t m
             }
             break;
         }
-        if (grows_cap) t.cap = n;
+        if (grows_cap && n > t.cap) t.cap = n;
         int eff_f = f != F_NULL ? f : t.tgt_f;
         if (!t.has_buckets) {
             // first resize (or first after clear): takes effect at once
